@@ -424,7 +424,7 @@ func b2i(b bool) int {
 //@   ensures[type-mismatch-exits] ssa.ExitsWith(wazevoapi.ExitCodeIndirectCallTypeMismatch) == old(ssa.ExitsWith(wazevoapi.ExitCodeIndirectCallTypeMismatch))+1 && ssa.ExitGuardedByCmp(wazevoapi.ExitCodeIndirectCallTypeMismatch) && ssa.ExitCmpCond(wazevoapi.ExitCodeIndirectCallTypeMismatch) == ssa.IntegerCmpCondNotEqual && ssa.IsLoaded(ssa.ExitCmpX(wazevoapi.ExitCodeIndirectCallTypeMismatch)) && ssa.LoadedAt(ssa.ExitCmpX(wazevoapi.ExitCodeIndirectCallTypeMismatch)) == wazevoapi.FunctionInstanceTypeIDOffset && ssa.LoadedFrom(ssa.ExitCmpX(wazevoapi.ExitCodeIndirectCallTypeMismatch)) == ssa.ExitCmpX(wazevoapi.ExitCodeIndirectCallNullPointer)
 //@   ensures[expected-type-id-of-the-immediate] ssa.IsLoaded(ssa.ExitCmpY(wazevoapi.ExitCodeIndirectCallTypeMismatch)) && ssa.LoadedAt(ssa.ExitCmpY(wazevoapi.ExitCodeIndirectCallTypeMismatch)) == uint64(typeIndex*4) && ssa.IsLoaded(ssa.LoadedFrom(ssa.ExitCmpY(wazevoapi.ExitCodeIndirectCallTypeMismatch))) && ssa.LoadedFrom(ssa.LoadedFrom(ssa.ExitCmpY(wazevoapi.ExitCodeIndirectCallTypeMismatch))) == c.moduleCtxPtrValue && ssa.LoadedAt(ssa.LoadedFrom(ssa.ExitCmpY(wazevoapi.ExitCodeIndirectCallTypeMismatch))) == uint64(c.offset.TypeIDs1stElement.U32())
 //@   ensures[calls-the-executable-of-the-checked-entry] ssa.IsLoaded(r0) && ssa.LoadedAt(r0) == wazevoapi.FunctionInstanceExecutableOffset && ssa.LoadedFrom(r0) == ssa.ExitCmpX(wazevoapi.ExitCodeIndirectCallNullPointer)
-//@   modifies ghost("*"), c.loweringState.values
+//@   modifies ghost("*"), ghost("H:appendOff"), ghost("H:appendLen"), c.loweringState.values
 //@   nosafety keep-pre
 
 // ---- C02 / C14: the memory base and length that later checks use are the values cached for the current
@@ -465,7 +465,7 @@ func b2i(b bool) int {
 //@   requires c.ssaBuilder != nil && c.m != nil
 //@   ensures[own-function-by-reference] fnIndex >= c.m.ImportFunctionCount ==> !isIndirect && funcRefOrPtrValue == uint64(FunctionIndexToFuncRef(fnIndex))
 //@   ensures[imported-function-through-its-slot] fnIndex < c.m.ImportFunctionCount ==> isIndirect && ssa.IsLoaded(ssa.Value(funcRefOrPtrValue)) && ssa.LoadedFrom(ssa.Value(funcRefOrPtrValue)) == c.moduleCtxPtrValue && ssa.LoadedAt(ssa.Value(funcRefOrPtrValue)) == uint64(importedFuncPtrOffset(c, fnIndex).U32())
-//@   modifies ghost("*"), c.loweringState.values
+//@   modifies ghost("*"), ghost("H:appendOff"), ghost("H:appendLen"), c.loweringState.values
 //@   nosafety
 
 //@ func (c *Compiler) lowerCall(fnIndex uint32)
